@@ -4,6 +4,7 @@ import ConjureVerif.Props.C05
 import ConjureVerif.Props.C06
 import ConjureVerif.Props.C07
 import ConjureVerif.Props.C08
+import ConjureVerif.Props.C09
 import ConjureVerif.Props.C10
 import ConjureVerif.Props.C11
 import ConjureVerif.Props.C12
@@ -13,3 +14,4 @@ import ConjureVerif.Props.C15
 import ConjureVerif.Props.C16
 import ConjureVerif.Props.C17
 import ConjureVerif.Props.C18
+import ConjureVerif.Props.C19
